@@ -14,7 +14,7 @@ NodeEdges(r) == {ExpandedNodeEdge(v) : v \in G(r).nodes}
 HasVal(r, v) == r.nw[NIdx(r, v)] # NONE
 
 Clauses == {"Builds", "NodesAreExpand", "EdgesAreExpand", "IgnoreImplied", "ValuesCopied", "ElementMap",
-            "StartsEnds", "NodeConstraints", "EdgeConstraints", "RoundTrip"}
+            "StartsEnds", "NodeConstraints", "EdgeConstraints", "RoundTrip", "CondensedGraph"}
 
 Holds(c, r) ==
   CASE c = "Builds" -> r.exc = "none"
@@ -37,6 +37,11 @@ Holds(c, r) ==
                  /\ ExpandedNodeEdge(r.cons_e_src[j][i][2]) \in ToSet(r.x_cons_e[j])
             /\ ToSet(r.x_cons_e[j]) \subseteq X(r).edges
     [] c = "RoundTrip"      -> r.rt_exc = "none" /\ r.rt_paths = r.paths
+    [] c = "CondensedGraph" ->
+         \* after the values on the node-edges were replaced by r.nw2 (0 included): the condensed graph is the original graph
+         \* whose nodes carry exactly these values (nodes without a value stay without one)
+         /\ r.cg_exc = "none" /\ ToSet(r.cg_nodes) = G(r).nodes /\ ToSet(r.cg_edges) = G(r).edges
+         /\ ToSet(r.cg_flow) = {<<v, r.nw2[NIdx(r, v)]>> : v \in {u \in G(r).nodes : HasVal(r, u)}}
 
 App(r) == IF r.exc = "none" THEN Clauses ELSE {"Builds"}
 Fails(r) == {c \in App(r) : ~Holds(c, r)}
